@@ -320,7 +320,7 @@ def parse_query(text):
 
 
 # ------------------------------------------------------------------ input-side schema generator
-def gen_input_schema(rng, n_inputs=3, n_enums=2):
+def gen_input_schema(rng, n_inputs=3, n_enums=2, p_bad_default=0.0):
     """A schema whose Query type has one probe field per input type shape."""
     types = OrderedDict()
     enums = []
@@ -349,7 +349,7 @@ def gen_input_schema(rng, n_inputs=3, n_enums=2):
     for name in inputs:
         for f in types[name]["fields"]:
             if rng.random() < 0.45 and named_of(f["type"]) not in inputs:
-                f["default"] = gen_literal(rng, s, f["type"], good=rng.random() < 0.85, for_sdl=True)
+                f["default"] = gen_literal(rng, s, f["type"], good=rng.random() >= p_bad_default, for_sdl=True)
     # probe fields
     shapes = []
     for leaf in leaf_pool + inputs:
@@ -404,8 +404,10 @@ def gen_json(rng, s, t, good=True, depth=0, nullable=True):
         return None
     if k == "list":
         r = rng.random()
-        if r < 0.2:   # single value wrapped
-            return gen_json(rng, s, t[1], good, depth + 1)
+        if r < 0.2 and strip_outer_nonnull(t[1])[0] != "list":   # single value wrapped (never null, never itself a list)
+            return gen_json(rng, s, t[1], good, depth + 1, nullable=False)
+        if r < 0.27 and good:   # a leaf value wrapped at every list level
+            return gen_json(rng, s, N(named_of(t)), True, depth + 1, nullable=False)
         n = rng.randrange(0, 3 if depth else 4)
         items = [gen_json(rng, s, t[1], True, depth + 1) for _ in range(n)]
         if not good:
@@ -484,8 +486,10 @@ def gen_literal(rng, s, t, good=True, for_sdl=False, variables=None, depth=0, nu
     if good and nullable and rng.random() < 0.1:
         return ("null",)
     if k == "list":
-        if rng.random() < 0.2:
-            return gen_literal(rng, s, t[1], good, for_sdl, variables, depth + 1)
+        if rng.random() < 0.2 and strip_outer_nonnull(t[1])[0] != "list":
+            return gen_literal(rng, s, t[1], good, for_sdl, variables, depth + 1, nullable=False)
+        if rng.random() < 0.08 and good:   # a leaf value wrapped at every list level
+            return gen_literal(rng, s, N(named_of(t)), True, for_sdl, variables, depth + 1, nullable=False)
         n = rng.randrange(0, 3)
         items = [gen_literal(rng, s, t[1], True, for_sdl, variables, depth + 1) for _ in range(n)]
         if not good:
